@@ -1,9 +1,10 @@
 // C12 — path normalization is total, canonical, idempotent and meaning-preserving.
 //
 // (a) uri.NormalizeEscapedPath on every string up to length N over a 12-symbol alphabet, against
-//     a reference normalizer; (c) parser half: every pair of spellings of small path keys must be
-//     reported as duplicates exactly when they are equivalent. The router half (b) is part of C05's
-//     regenerated-router run (escaped request variants) and is reported there and here by count.
+//
+//	a reference normalizer; (c) parser half: every pair of spellings of small path keys must be
+//	reported as duplicates exactly when they are equivalent. The router half (b) is part of C05's
+//	regenerated-router run (escaped request variants) and is reported there and here by count.
 package main
 
 import (
